@@ -438,12 +438,18 @@ ADDENDA = {
             " nil *Item elements of the cue list are skipped by all five writers: the STL and TTML checked writers go through "
             "Kit.Chk.somes like the SubRip/WebVTT/SSA ones (C08_stl_writer_total_nil_items, C08_ttml_writer_total_nil_items) and "
             "the harness passes lists with nil elements to the models.", ""),
-    "C09": (INT64 % ("C09_int64", "C09_int64_wraps: Add(10) on a cue ending at MaxInt64-5"), ""),
+    "C09": (INT64 % ("C09_int64", "C09_int64_wraps: Add(10) on a cue ending at MaxInt64-5") +
+            " Composition: two shifts in the same direction equal one shift by the sum (C09_compose_back for every list with start<=end, "
+            "removal and clamping included; C09_compose_forward and C09_zero_shift for cues on the timeline); opposite signs do not "
+            "compose (C09_compose_mixed_differs, computed).", ""),
     "C10": (INT64 % ("C10_int64", "C10_int64_diverges: Fragment(2^62) on [0, MaxInt64) never terminates - the fuelled model returns None for every fuel - and C10_piece_count bounds the pieces by (end-start)/f + 2") , ""),
     "C11": (" C11_inverse_any drops the start<end hypothesis of the inverse law (the property has none); Unfragment, Order and Merge "
             "do no arithmetic: their output times are drawn from the input times (C11_int64, C12_int64), so the models are already "
             "their int64 models.", ""),
-    "C12": (" Merge and Order do no arithmetic on times: output times are drawn from the input times (C12_int64, C12_int64_merge).", ""),
+    "C12": (" Merge and Order do no arithmetic on times: output times are drawn from the input times (C12_int64, C12_int64_merge)."
+            " Consequences: Order leaves an ordered list unchanged, is idempotent and keeps the length (C12_order_fixes_sorted, "
+            "_idempotent, _length); merging an empty list orders the receiver and merging lists whose concatenation is already "
+            "ordered is the concatenation (C12_merge_empty, C12_merge_sorted_disjoint_times).", ""),
     "C13": (" References are followed through objects, definitions are kept by identifier: an item pointing to a style object "
             "other than the one stored under its identifier (redirected pointers, suite optimize.alias) left a dangling parent "
             "link in the library - found by the harness's oracle, repaired (repo a175e5f), seed C13-optimize-aliased-style-object.",
